@@ -2,6 +2,7 @@ package e1front
 
 import (
 	"math/rand/v2"
+	"slices"
 
 	"verifsim/core"
 	"verifsim/echbox"
@@ -78,10 +79,32 @@ func genC03(seed uint64, idx int) *Plan {
 	if idx%16 == 5 {
 		// what the accessors report after a HelloRetryRequest and a second hello
 		// (well-formed or refused): C06's histories, judged for the accessors only
+		pl := genC06(seed, idx)
 		if idx%32 == 5 {
-			return genC04(seed, 9+10*(idx/32))
+			pl = genC04(seed, 9+10*(idx/32))
 		}
-		return genC06(seed, idx)
+		if pl.History != nil {
+			// the accessors are looked at on one goroutine; the protocol list is one
+			// whose order is not the lexical one
+			pl.History.Concurrent = false
+			if a := pl.History.Base.InnerALPN; len(a) < 2 || slices.IsSorted(a) {
+				pl.History.Base.InnerALPN = []string{"http/1.1", "h2", "acme-tls/1"}
+			}
+			for i := range pl.History.Steps {
+				pl.History.Steps[i].SlowReturn, pl.History.Steps[i].DebugPark = false, 0
+			}
+			if idx%32 == 21 {
+				// the plain accepted retry: HelloRetryRequest, a well-formed second
+				// hello, then traffic
+				a := int(seed>>8) & (1<<20 - 1)
+				pl.History.Steps = []HStep{{Side: "b", Kind: "hrr"}, {Side: "c", Kind: "ccs"}, {Side: "c", Kind: "hello2-ok", A: a, RealCtx: a%2 == 0}, {Side: "c", Kind: "appdata", A: a}, {Side: "b", Kind: "sh"}}
+				if a%4 == 1 {
+					pl.History.Steps = pl.History.Steps[2:]
+					pl.History.Steps = append([]HStep{{Side: "b", Kind: "hrr"}}, pl.History.Steps...)
+				}
+			}
+		}
+		return pl
 	}
 	r := core.NewRand(seed, "plan")
 	if r.IntN(5) < 2 {
